@@ -497,6 +497,12 @@ def gen_sched_or_regen(rng, **kw):
         return gen_validation_failure(rng)
     if rng.random() < 0.06:
         return gen_group_interrupt(rng)
+    if rng.random() < 0.06:
+        # a step whose *reported* dependency is another step's output with no declared path between them, recorded by an earlier
+        # invocation: dependencies learned from depfiles impose no ordering
+        import world
+        steps, invs, info = world.gen_history_gendep(rng)
+        return "\n".join(steps), [{k: v for k, v in m.items() if k != "files"} for m in invs], info
     return gen_sched_scenario(rng, **kw)
 
 
